@@ -135,7 +135,7 @@ def impl_run(task):
                 if abad:
                     fails.append("reported condition %s makes the system matrix undefined" % c)
             for (a, b) in spec.get("expected_pairs", []):
-                sa, sb = S(a), S(b)
+                sa, sb = (sympy.Integer(int(a)) if a.isdigit() else S(a)), (sympy.Integer(int(b)) if b.isdigit() else S(b))
                 found = any((set(c.keys()) == {sa} and sympy.simplify(c[sa] - sb) == 0) or (set(c.keys()) == {sb} and sympy.simplify(c[sb] - sa) == 0) for c in obs)
                 if not found:
                     fails.append("the propagator is singular for %s = %s but this equality is not among the reported conditions %s" % (a, b, obs))
@@ -152,7 +152,9 @@ def gen_spec(rng):
         names = ["a%d" % i for i in range(n)]
         if kind == "repeat" and n >= 2:
             names[1] = names[0]
-        symbols = sorted(set(names))
+        if rng.random() < 0.4:      # one stage with a numeric decay constant (0: a pure integrator stage; its denominators are bare symbols)
+            names[rng.randrange(n)] = rng.choice(["0", "0", "2"])
+        symbols = sorted(set(nm for nm in names if not nm.isdigit()))
         parent = {}
         for i in range(n):
             entries.append((i, i, "-%s" % names[i]))
@@ -187,6 +189,8 @@ def gen_spec(rng):
 FIXED = [
     {"n": 1, "entries": [(0, 0, "-a0")], "symbols": ["a0", "k"], "P_override": ["a0**k/(a0 - 1)"], "expected_pairs": [], "kind": "symbolic_exponent"},
     {"n": 2, "entries": [(0, 0, "-a0"), (1, 1, "-a1"), (1, 0, "1")], "symbols": ["a0", "a1"], "expected_pairs": [("a0", "a1")], "kind": "chain"},
+    {"n": 2, "entries": [(0, 0, "-a0"), (1, 0, "1")], "symbols": ["a0"], "expected_pairs": [("a0", "0")], "kind": "chain"},
+    {"n": 3, "entries": [(0, 0, "-a0"), (1, 1, "-a1"), (1, 0, "1"), (2, 1, "2")], "symbols": ["a0", "a1"], "expected_pairs": [("a0", "a1"), ("a0", "0"), ("a1", "0")], "kind": "chain"},
 ]
 
 HEADER = "From Coq Require Import List ZArith QArith Qcanon Bool.\nFrom OdeVerif Require Import Base.Corr Model.Singularity Model.SingularityExec.\nImport ListNotations.\n"
